@@ -51,7 +51,11 @@ pub fn bop(u: &mut Unstructured) -> Result<BOp> {
         13 => BOp::Exists(u.arbitrary()?, u.arbitrary()?),
         14 => BOp::Compose(u.arbitrary()?, u.arbitrary()?, u.arbitrary()?),
         15 => {
-            let k = u.arbitrary::<u8>()? % 5;
+            let k = match u.arbitrary::<u8>()? {
+                0..=199 => u.arbitrary::<u8>()? % 5,
+                200..=229 => 5 + u.arbitrary::<u8>()? % 8,
+                _ => 13 + u.arbitrary::<u8>()? % 67,
+            };
             let l = vec_u16(u, k as usize)?;
             if u.arbitrary()? {
                 BOp::AndLst(l)
